@@ -103,6 +103,16 @@ pub struct Viol {
     pub class: String,
     pub step: usize,
     pub detail: String,
+    /// non-benign faults that fired during the step the violation belongs to (call:kind)
+    pub fired: Vec<String>,
+    /// outcome of that step
+    pub outcome: String,
+}
+
+impl Viol {
+    pub fn new(class: &str, step: usize, detail: String) -> Viol {
+        Viol { class: class.to_string(), step, detail, fired: vec![], outcome: String::new() }
+    }
 }
 
 #[derive(Clone, Debug, PartialEq, Eq)]
@@ -283,6 +293,7 @@ pub struct HistExec {
     pub stats: Stats,
     pub step_no: usize,
     pub needs_recovery: bool,
+    pub has_project: bool,
     /// profile of the most recent fault-free step of the current version
     pub last_counters: BTreeMap<String, u32>,
     pub last_calls: u64,
@@ -367,6 +378,7 @@ impl HistExec {
             stats: Stats::default(),
             step_no: 0,
             needs_recovery: false,
+            has_project: false,
             last_counters: BTreeMap::new(),
             last_calls: 0,
             last_log: vec![],
@@ -394,6 +406,7 @@ impl HistExec {
                 for f in files.iter().chain(bystanders.iter()) {
                     write_file(&src, &f.path, f.text.as_bytes());
                 }
+                self.has_project = true;
                 self.version = Version { files: files.clone(), bystanders: bystanders.clone(), faulty: faulty.clone(), note: note.clone() };
                 self.last_counters.clear();
                 self.last_calls = 0;
@@ -463,7 +476,11 @@ impl HistExec {
         self.step_no += 1;
         let before = snapshot(&self.root);
         let files = input_files(&self.version, &self.layout);
-        let r = reference(&files, self.annotate, &mut self.refs, &mut self.stats);
+        let mut r = reference(&files, self.annotate, &mut self.refs, &mut self.stats);
+        if !self.has_project {
+            // no source directory exists yet: the only acceptable outcome is an error
+            r = JobResult { verdict: "err".into(), ..Default::default() };
+        }
         let fault_configured = crash_at.is_some() || disk_budget.is_some() || plan.iter().any(|p| !is_benign(p));
 
         // the shipped binary on a copy of the tree (fault-free steps only)
@@ -495,7 +512,7 @@ impl HistExec {
                             cli_result = Some((st.code().unwrap_or(-1), snapshot(&copy)));
                         }
                         Err(e) => {
-                            self.violations.push(Viol { class: "harness".into(), step, detail: format!("cannot run mamba binary: {e}") });
+                            self.violations.push(Viol::new("harness", step, format!("cannot run mamba binary: {e}")));
                         }
                     }
                     let _ = std::fs::remove_dir_all(&copy);
@@ -507,6 +524,14 @@ impl HistExec {
         let spec = self.step_spec(hash_seed, readdir_seed, plan, crash_at, disk_budget, &self.root);
         let res = self.run_step(&spec);
         let after = snapshot(&self.root);
+        if std::env::var("MSIM_TRACE").is_ok() {
+            println!("---- op {op_index}: outcome={} diags={:?} fired={:?}", res.outcome, res.diags.iter().map(|d| d.lines().next().unwrap_or("").to_string()).collect::<Vec<_>>(), res.fired);
+            for l in &res.log {
+                if !l.contains("$STUB") && !l.starts_with("read fd") && !l.starts_with("close") && !l.starts_with("lseek") && !l.starts_with("statx fd") {
+                    println!("     {l}");
+                }
+            }
+        }
 
         // ---- bookkeeping
         self.stats.steps += 1;
@@ -548,7 +573,7 @@ impl HistExec {
             if r.verdict.starts_with("abort") {
                 self.stats.reference_panics += 1;
             } else {
-                self.violations.push(Viol { class: "panic".into(), step, detail: format!("executor died: {}", res.panic_msg) });
+                self.violations.push(Viol::new("panic", step, format!("executor died: {}", res.panic_msg)));
             }
             return;
         }
@@ -559,7 +584,7 @@ impl HistExec {
         // paths written outside the scratch root that still exist
         for (what, p) in &res.write_set {
             if !p.starts_with("$ROOT") && Path::new(p).exists() && what != "unlink" && what != "rmdir" {
-                step_viol.push(Viol { class: "wrote_outside_mirror".into(), step, detail: format!("{what} {p} (outside the project tree)") });
+                step_viol.push(Viol::new("wrote_outside_mirror", step, format!("{what} {p} (outside the project tree)")));
             }
         }
 
@@ -570,19 +595,15 @@ impl HistExec {
 
         if !fault_fired {
             if !ref_abnormal && res.outcome == "panic" {
-                step_viol.push(Viol { class: "panic".into(), step, detail: format!("transpile_dir panicked: {}", res.panic_msg.lines().next().unwrap_or("")) });
+                step_viol.push(Viol::new("panic", step, format!("transpile_dir panicked: {}", res.panic_msg.lines().next().unwrap_or(""))));
             } else if !ref_abnormal {
                 if r.verdict != res.outcome {
-                    step_viol.push(Viol {
-                        class: "verdict_differs_from_reference".into(),
-                        step,
-                        detail: format!("mamba_to_python says {} but transpile_dir returned {} {}", r.verdict, res.outcome, res.diags.first().map(|d| d.lines().next().unwrap_or("").to_string()).unwrap_or_default()),
-                    });
+                    step_viol.push(Viol::new("verdict_differs_from_reference", step, format!("mamba_to_python says {} but transpile_dir returned {} {}", r.verdict, res.outcome, res.diags.first().map(|d| d.lines().next().unwrap_or("").to_string()).unwrap_or_default())));
                 } else if res.outcome == "ok" {
                     step_viol.extend(self.judge_ok(step, &before, &after, &files, &r, &out_rel));
                     let expect_path = format!("$ROOT/{out_rel}");
                     if res.ok_path != expect_path {
-                        step_viol.push(Viol { class: "ok_but_tree_differs".into(), step, detail: format!("returned output directory {} instead of {}", res.ok_path, expect_path) });
+                        step_viol.push(Viol::new("ok_but_tree_differs_extra", step, format!("returned output directory {} instead of {}", res.ok_path, expect_path)));
                     }
                 } else if res.outcome == "err" {
                     step_viol.extend(self.judge_err(step, &before, &after, &res, &out_rel));
@@ -600,7 +621,7 @@ impl HistExec {
             if let Some((code, cli_tree)) = cli_result {
                 let lib_ok = res.outcome == "ok";
                 if (code == 0) != lib_ok {
-                    step_viol.push(Viol { class: "cli_disagrees_with_library".into(), step, detail: format!("binary exit status {code}, library returned {}", res.outcome) });
+                    step_viol.push(Viol::new("cli_disagrees_with_library", step, format!("binary exit status {code}, library returned {}", res.outcome)));
                 } else if cli_tree != after {
                     let mut d = String::new();
                     for k in cli_tree.keys().chain(after.keys()) {
@@ -609,7 +630,7 @@ impl HistExec {
                             break;
                         }
                     }
-                    step_viol.push(Viol { class: "cli_disagrees_with_library".into(), step, detail: format!("trees differ at {d}") });
+                    step_viol.push(Viol::new("cli_disagrees_with_library", step, format!("trees differ at {d}")));
                 }
             }
             if plan.iter().all(is_benign) && crash_at.is_none() && disk_budget.is_none() {
@@ -622,7 +643,7 @@ impl HistExec {
             if res.outcome == "ok" && !ref_abnormal {
                 self.stats.ok_under_fault_checked += 1;
                 if r.verdict != "ok" {
-                    step_viol.push(Viol { class: "verdict_differs_from_reference".into(), step, detail: format!("mamba_to_python says {} but transpile_dir returned ok under a fault", r.verdict) });
+                    step_viol.push(Viol::new("verdict_differs_from_reference", step, format!("mamba_to_python says {} but transpile_dir returned ok under a fault", r.verdict)));
                 } else {
                     step_viol.extend(self.judge_ok(step, &before, &after, &files, &r, &out_rel));
                 }
@@ -661,6 +682,17 @@ impl HistExec {
                 self.needs_recovery = true;
             }
         }
+        let fired_keys: Vec<String> = {
+            let mut k: Vec<String> = res.fired.iter().filter(|f| !f.benign).map(|f| format!("{}:{}", f.call, f.kind)).collect();
+            if res.outcome == "crash" {
+                k.push("crash".into());
+            }
+            k
+        };
+        for v in step_viol.iter_mut() {
+            v.fired = fired_keys.clone();
+            v.outcome = res.outcome.clone();
+        }
         self.violations.extend(step_viol);
     }
 
@@ -686,8 +718,8 @@ impl HistExec {
         }
         for (p, exp) in &expected {
             match after.get(p) {
-                None => v.push(Viol { class: "ok_but_tree_differs".into(), step, detail: format!("missing: {p}") }),
-                Some(n) if n.dir => v.push(Viol { class: "ok_but_tree_differs".into(), step, detail: format!("content: {p} is a directory") }),
+                None => v.push(Viol::new("ok_but_tree_differs_missing", step, format!("missing: {p}"))),
+                Some(n) if n.dir => v.push(Viol::new("ok_but_tree_differs_content", step, format!("content: {p} is a directory"))),
                 Some(n) => {
                     let got = norm(&n.data);
                     if &got != exp {
@@ -698,7 +730,8 @@ impl HistExec {
                         } else {
                             "content"
                         };
-                        v.push(Viol { class: "ok_but_tree_differs".into(), step, detail: format!("{kind}: {p} has {} bytes, expected {}", got.len(), exp.len()) });
+                        let cls = if kind == "stale_tail" { "ok_but_tree_differs_stale_tail" } else { "ok_but_tree_differs_content" };
+                        v.push(Viol::new(cls, step, format!("{kind}: {p} has {} bytes, expected {}", got.len(), exp.len())));
                     }
                     if let Some(b) = before.get(p) {
                         if !b.dir && b.data.len() > exp.len() {
@@ -714,12 +747,12 @@ impl HistExec {
             }
             match before.get(p) {
                 Some(b) if b == n => {}
-                Some(_) => v.push(Viol { class: "wrote_outside_mirror".into(), step, detail: format!("modified: {p}") }),
+                Some(_) => v.push(Viol::new("wrote_outside_mirror", step, format!("modified: {p}"))),
                 None => {
                     if n.dir && allowed_dirs.contains(p) {
                         continue;
                     }
-                    v.push(Viol { class: "ok_but_tree_differs".into(), step, detail: format!("extra: {p}") });
+                    v.push(Viol::new("ok_but_tree_differs_extra", step, format!("extra: {p}")));
                 }
             }
         }
@@ -728,7 +761,7 @@ impl HistExec {
                 if p.starts_with(&format!("{out_rel}/")) {
                     self.stats.deleted_in_target_tolerated += 1;
                 } else {
-                    v.push(Viol { class: "wrote_outside_mirror".into(), step, detail: format!("deleted: {p}") });
+                    v.push(Viol::new("wrote_outside_mirror", step, format!("deleted: {p}")));
                 }
             }
         }
@@ -738,16 +771,16 @@ impl HistExec {
     fn judge_err(&mut self, step: usize, before: &Tree, after: &Tree, res: &StepResult, out_rel: &str) -> Vec<Viol> {
         let mut v = vec![];
         if res.diags.is_empty() || res.diags.iter().all(|d| d.trim().is_empty()) {
-            v.push(Viol { class: "diagnostic_wrong_or_missing_file".into(), step, detail: "rejected without any diagnostic".into() });
+            v.push(Viol::new("diagnostic_wrong_or_missing_file", step, "rejected without any diagnostic".into()));
         }
         for (p, n) in after {
             if p.ends_with(".py") && !n.dir && before.get(p) != Some(n) {
-                v.push(Viol { class: "compile_error_but_python_written".into(), step, detail: format!("{} {p}", if before.contains_key(p) { "modified" } else { "created" }) });
+                v.push(Viol::new("compile_error_but_python_written", step, format!("{} {p}", if before.contains_key(p) { "modified" } else { "created" })));
             }
         }
         for p in before.keys() {
             if !after.contains_key(p) && !p.starts_with(&format!("{out_rel}/")) {
-                v.push(Viol { class: "wrote_outside_mirror".into(), step, detail: format!("deleted: {p}") });
+                v.push(Viol::new("wrote_outside_mirror", step, format!("deleted: {p}")));
             }
         }
         // the single faulty file must be named, and no other project file
@@ -775,17 +808,13 @@ impl HistExec {
                 let kb = base(&k);
                 let names_k = locs.iter().any(|l| base(l) == kb) || res.diags.iter().any(|d| d.contains(&kb));
                 if !names_k {
-                    v.push(Viol {
-                        class: "diagnostic_wrong_or_missing_file".into(),
-                        step,
-                        detail: format!("no diagnostic names the faulty file {k}; locations: {:?}", locs),
-                    });
+                    v.push(Viol::new("diagnostic_wrong_or_missing_file", step, format!("no diagnostic names the faulty file {k}; locations: {:?}", locs)));
                 }
                 for f in &self.version.files {
                     if f.path != k {
                         let fb = base(&f.path);
                         if locs.iter().any(|l| base(l) == fb) {
-                            v.push(Viol { class: "diagnostic_wrong_or_missing_file".into(), step, detail: format!("a diagnostic points into {} although only {k} is faulty", f.path) });
+                            v.push(Viol::new("diagnostic_wrong_or_missing_file", step, format!("a diagnostic points into {} although only {k} is faulty", f.path)));
                         }
                     }
                 }
@@ -821,11 +850,11 @@ impl HistExec {
                         let r = reference(&pf, sc.annotate, &mut self.refs, &mut self.stats);
                         *self.stats.relation_checks.entry("order".into()).or_insert(0) += 1;
                         if r.verdict != base.verdict {
-                            self.violations.push(Viol { class: "order_dependence".into(), step: *op, detail: format!("verdict {} in order {:?} but {} in sorted order", r.verdict, perm, base.verdict) });
+                            self.violations.push(Viol::new("order_dependence", *op, format!("verdict {} in order {:?} but {} in sorted order", r.verdict, perm, base.verdict)));
                         } else if r.verdict == "ok" {
                             for (k, &i) in perm.iter().enumerate() {
                                 if r.outputs.get(k) != base.outputs.get(i) {
-                                    self.violations.push(Viol { class: "order_dependence".into(), step: *op, detail: format!("output of {} differs when files are presented in order {:?}", files[i].path, perm) });
+                                    self.violations.push(Viol::new("order_dependence", *op, format!("output of {} differs when files are presented in order {:?}", files[i].path, perm)));
                                     break;
                                 }
                             }
@@ -853,13 +882,13 @@ impl HistExec {
                     let re = reference(&ef, sc.annotate, &mut self.refs, &mut self.stats);
                     *self.stats.relation_checks.entry("interference".into()).or_insert(0) += 1;
                     if re.verdict != rb.verdict {
-                        self.violations.push(Viol { class: "interference".into(), step: *ext_op, detail: format!("verdict {} becomes {} when an unrelated valid file is added", rb.verdict, re.verdict) });
+                        self.violations.push(Viol::new("interference", *ext_op, format!("verdict {} becomes {} when an unrelated valid file is added", rb.verdict, re.verdict)));
                     } else if rb.verdict == "ok" {
                         for (i, f) in bf.iter().enumerate() {
                             let j = ef.iter().position(|e| e.text == f.text);
                             if let Some(j) = j {
                                 if rb.outputs.get(i) != re.outputs.get(j) {
-                                    self.violations.push(Viol { class: "interference".into(), step: *ext_op, detail: format!("output of {} changes when an unrelated file is added", f.path) });
+                                    self.violations.push(Viol::new("interference", *ext_op, format!("output of {} changes when an unrelated file is added", f.path)));
                                     break;
                                 }
                             }
@@ -884,12 +913,12 @@ impl HistExec {
                         continue;
                     }
                     if ra.verdict != rb.verdict {
-                        self.violations.push(Viol { class: "order_dependence".into(), step: *op_b, detail: format!("verdict {} becomes {} when the same files are renamed into another order", ra.verdict, rb.verdict) });
+                        self.violations.push(Viol::new("order_dependence", *op_b, format!("verdict {} becomes {} when the same files are renamed into another order", ra.verdict, rb.verdict)));
                     } else if ra.verdict == "ok" {
                         for (i, f) in a.iter().enumerate() {
                             if let Some(j) = b.iter().position(|e| e.text == f.text) {
                                 if ra.outputs.get(i) != rb.outputs.get(j) {
-                                    self.violations.push(Viol { class: "order_dependence".into(), step: *op_b, detail: format!("output of {} (renamed {}) differs when the files are presented in another order", f.path, b[j].path) });
+                                    self.violations.push(Viol::new("order_dependence", *op_b, format!("output of {} (renamed {}) differs when the files are presented in another order", f.path, b[j].path)));
                                     break;
                                 }
                             }
@@ -913,14 +942,10 @@ impl HistExec {
                         }
                         *self.stats.relation_checks.entry("visibility".into()).or_insert(0) += 1;
                         if two.verdict != "ok" {
-                            self.violations.push(Viol {
-                                class: "cross_file_invisible".into(),
-                                step: 0,
-                                detail: format!(
+                            self.violations.push(Viol::new("cross_file_invisible", 0, format!(
                                     "{label}: project rejected ({}) although the class is defined in the other file and the same use is accepted when the class is local",
                                     two.diags.first().map(|d| d.lines().next().unwrap_or("").to_string()).unwrap_or_default()
-                                ),
-                            });
+                                )));
                         }
                     }
                     // negative controls: without the definition the use must be rejected
@@ -928,7 +953,7 @@ impl HistExec {
                     let neg = reference(&[lib_without_def.clone(), user.clone()], sc.annotate, &mut self.refs, &mut self.stats);
                     *self.stats.relation_checks.entry("visibility_negative_control".into()).or_insert(0) += 1;
                     if alone.verdict == "ok" || neg.verdict == "ok" {
-                        self.violations.push(Viol { class: "cross_file_invisible".into(), step: 0, detail: "the use of a class that is defined nowhere is accepted (uses are not checked against the shared context)".into() });
+                        self.violations.push(Viol::new("cross_file_invisible", 0, "the use of a class that is defined nowhere is accepted (uses are not checked against the shared context)".into()));
                     }
                 }
             }
